@@ -616,9 +616,18 @@ class Interp:
                     rv = ("p", a[1], None) if not is_pure_value_accessor(dm) else rv
                     break
         ext = cls == "extern"
+        hv = getattr(self, "extern_havoc", None)
+        if ext and hv is not None and hv(dm):
+            # an external routine that writes through its pointer arguments (e.g. an input archive): the local objects they point into are forgotten
+            for a in args:
+                if is_ptr(a) and a[1][0] == "alloca":
+                    for k in [k for k in path.mem if k[0] == a[1]]:
+                        del path.mem[k]
+                    self.counter += 1
+                    path.mem[(a[1], 0)] = ("obj", ("written-by", name, self.counter))
         if re.match(r"^intersection\(", name):
             path.emit(("intersect", name, argterms))
-        if ext or non_const_on_tracked(dm, args):
+        if ext or non_const_on_tracked(dm, args) or (self.opaque_extra and self.opaque_extra.search(dm)):
             path.emit(("ext" if ext else "opaque", name, tuple(args), argterms))
         outs = [("ret", rv, path)]
         if thr and not site_nothrow:
